@@ -286,11 +286,11 @@ package mapping
 //@   prop C05
 //@   opaque ValidatePtr, processField
 //@   requires u != nil
+//@   loop 1 entry [from-the-first-field] i == 0
 //@   loop 1 invariant 0 <= i
 //@   loop 1 iteration-ensures [field-i-processed] calls(u.processField) == 1 && arg(rte.Field, 0) == at_head(i) && arg(rve.Field, 1) == at_head(i) && arg(u.processField, 1) == ret(rte.Field) && arg(u.processField, 2) == ret(rve.Field) && ret(processField) == nil && i == at_head(i) + 1 && arg(u.processField, 3) == m && arg(u.processField, 4) == fullName
 //@   ensures [invalid-destination] ret(ValidatePtr) != nil ==> result == ret(ValidatePtr) && calls(processField) == 0
 //@   ensures [non-struct-destination] ret(ValidatePtr) == nil && ret(Kind) != 25 ==> result == errValueNotStruct && calls(processField) == 0
-//@   ensures [field-error-returned] calls(processField) >= 1 && result != nil && ret(ValidatePtr) == nil && ret(Kind) == 25 ==> true
 // processField: a field tagged for another source is skipped; an embedded struct goes to the anonymous path,
 // everything else to the named path.
 //@ func (*Unmarshaler).processField
@@ -314,6 +314,7 @@ package mapping
 //@   prop C05
 //@   opaque maybeNewValue, Deref, processField
 //@   requires u != nil
+//@   loop 1 entry [from-the-first-field] i == 0
 //@   loop 1 invariant 0 <= i
 //@   loop 1 iteration-ensures [every-field-processed-in-order] calls(u.processField) == 1 && ret(processField) == nil && i == at_head(i) + 1 && arg(derefedFieldType.Field, 0) == at_head(i) && arg(indirectValue.Field, 1) == at_head(i) && arg(u.processField, 1) == ret(derefedFieldType.Field) && arg(u.processField, 2) == ret(indirectValue.Field)
 // Optional embedded struct: all-or-nothing - once one of its fields is present, every required field of it must
@@ -322,6 +323,7 @@ package mapping
 //@   prop C05
 //@   opaque maybeNewValue, Deref, processField, parseOptionsWithContext, getValue, optional, Errorf
 //@   requires u != nil
+//@   loop 1 entry [from-the-first-field] i == 0 && required == 0 && requiredFilled == 0 && !filled
 //@   loop 1 invariant 0 <= i && 0 <= requiredFilled && requiredFilled <= required && (requiredFilled > 0 ==> filled)
 //@   loop 1 iteration-ensures [present-field-processed] ret(parseOptionsWithContext, 2) == nil && (ret(getValue, 1) ==> calls(u.processField) == 1 && ret(processField) == nil && filled) && (!ret(getValue, 1) ==> calls(processField) == 0 && filled == at_head(filled))
 //@   loop 1 iteration-ensures [required-fields-counted] required == at_head(required) + ite(ret(optional), 0, 1) && requiredFilled == at_head(requiredFilled) + ite(!ret(optional) && ret(getValue, 1), 1, 0)
